@@ -53,7 +53,26 @@ def r11_1(ctx):
             break
     ctx.check(not bad_pairs, "pair-roundtrip", ef.where(), "decode(encode(b1)+encode(b2)) == [b1,b2] for all %d ordered byte pairs (tables)" % n,
               "adjacent encodings are mis-decoded for byte pairs %s" % [("0x%02x" % a, "0x%02x" % b) for a, b in bad_pairs])
-    ctx.note("R11.1 evaluated %d single bytes and %d ordered pairs against the tables extracted from the current MIR" % (255, n))
+    # longer words over class representatives: the introducer, every letter either decoder gives a meaning to, hex digits,
+    # bytes whose encodings end/start with those, and one member of every encoder class
+    reps = sorted({ord(c) for c in "\\xnrt0a7fF9g (\""} | {0x00, 0x09, 0x0d, 0x1b, 0x7f, 0x80, 0xc3, 0xff}
+                  | {ord(k) for k in unesc if isinstance(k, str) and len(k) == 1} | {ord(k) for k in res if isinstance(k, str) and len(k) == 1})
+    reps = [b for b in reps if b != 0x0a and b < 256]
+    depth = 4 if ctx.tier == "thorough" else 3
+    import itertools
+    bad_words, m = [], 0
+    for k in range(3, depth + 1):
+        for w in itertools.product(reps, repeat=k):
+            m += 1
+            if et.decode(unesc, unesc_other, res, res_other, "".join(texts[b] for b in w)) != bytes(w):
+                bad_words.append(w)
+                if len(bad_words) > 5:
+                    break
+        if len(bad_words) > 5:
+            break
+    ctx.check(not bad_words, "word-roundtrip", ef.where(), "decode(encode(w)) == w for all %d words of length 3..%d over %d class representatives" % (m, depth, len(reps)),
+              "encodings of longer words are mis-decoded: %s" % [" ".join("0x%02x" % b for b in w) for w in bad_words])
+    ctx.note("R11.1 evaluated %d single bytes, %d ordered pairs and %d words of length 3..%d over %d representatives against the tables extracted from the current MIR" % (255, n, m, depth, len(reps)))
 
 
 def _has_unprintable_set(prog):
